@@ -25,8 +25,8 @@ Lemma pop_app1 {A} (l : list A) x : pop_ (l ++ [x]) = Some (x, l).
 Proof. unfold pop_. rewrite rev_app_distr. cbn. now rewrite rev_involutive. Qed.
 Lemma upd_last_app1 {A} (l : list A) x f : upd_last_ (l ++ [x]) f = Some (l ++ [f x]).
 Proof. unfold upd_last_. rewrite rev_app_distr. cbn. now rewrite rev_involutive. Qed.
-Lemma length_app1_eqb0 {A} (l : list A) x : Nat.eqb (List.length (l ++ [x])) 0 = false.
-Proof. rewrite app_length. cbn. now rewrite Nat.add_comm. Qed.
+Lemma length_app1 {A} (l : list A) x : List.length (l ++ [x]) = S (List.length l).
+Proof. rewrite app_length. cbn. apply Nat.add_1_r. Qed.
 Lemma eq_arity_matches k n : eq_arity k (node_arity n) = arity_matches k n.
 Proof. reflexivity. Qed.
 Lemma dmem_dget {A} k (m : list (string * A)) : dmem k m = match dget k m with Some _ => true | None => false end.
@@ -39,11 +39,11 @@ Proof. reflexivity. Qed.
 (* symbolic execution of a generated body on a state in model form *)
 Ltac mstep :=
   first
-  [ rewrite last_app1 | rewrite pop_app1 | rewrite upd_last_app1 | rewrite length_app1_eqb0
+  [ rewrite last_app1 | rewrite pop_app1 | rewrite upd_last_app1 | rewrite length_app1
   | rewrite bind_some | rewrite bind_ret_r | rewrite eq_arity_matches | rewrite rev_involutive
   | rewrite dupdate_one | rewrite app_nil_r
   | progress unfold extendleft_, reversed_, ret, raise_
-  | progress cbn [bind ret raise_ fst snd rev List.length Nat.eqb negb app reversed_ extendleft_] ].
+  | progress cbn [bind ret raise_ fst snd rev List.length Nat.eqb Nat.ltb Nat.leb negb app reversed_ extendleft_] ].
 Ltac mrun := repeat mstep.
 
 (* ---------------------------------------------------------------- loops, generic in the body *)
@@ -65,7 +65,54 @@ Lemma while_iter {S} (cond : S -> option bool) body fuel s :
 Proof. unfold iter. cbn [while_]. destruct (cond s) as [[|]|]; reflexivity. Qed.
 
 (* ---------------------------------------------------------------- Primitive.format / Terminal.format *)
-Lemma gen_Primitive_format_eq s args : gen_Primitive_format s args = seq_format s args.
+(* str.format on format strings *)
+Lemma tpl_format_app a b args :
+  tpl_format (a ++ b) args =
+  match tpl_format a args, tpl_format b args with Some x, Some y => Some (x ++ y)%string | _, _ => None end.
+Proof.
+  induction a as [|[s|i] a IH]; cbn.
+  - destruct (tpl_format b args); reflexivity.
+  - rewrite IH. destruct (tpl_format a args), (tpl_format b args); try reflexivity. now rewrite app_assoc_s.
+  - rewrite IH. destruct (nth_error args i); [|reflexivity].
+    destruct (tpl_format a args), (tpl_format b args); try reflexivity. now rewrite app_assoc_s.
+Qed.
+
+Lemma skipn_nth {A} (l : list A) : forall i a, nth_error l i = Some a -> skipn i l = a :: skipn (S i) l.
+Proof. induction l as [|x l IH]; intros [|i] a E; try discriminate; cbn in *; [now injection E as ->|auto]. Qed.
+
+Lemma tpl_join_fields sep args : forall n i, i + n <= List.length args ->
+  tpl_format (tpl_join sep (map tpl_field (seq i n))) args = Some (String.concat sep (firstn n (skipn i args))).
+Proof.
+  induction n as [|n IH]; intros i H; [reflexivity|].
+  destruct (nth_error args i) as [a|] eqn:E; [|apply nth_error_None in E; lia].
+  rewrite (skipn_nth _ _ _ E). cbn [firstn].
+  destruct n as [|m].
+  - cbn. rewrite E. now rewrite app_nil_r_s.
+  - specialize (IH (S i) ltac:(lia)).
+    destruct (nth_error args (S i)) as [b|] eqn:E2; [|apply nth_error_None in E2; lia].
+    rewrite (skipn_nth _ _ _ E2) in IH |- *. cbn [firstn] in IH |- *.
+    change (seq i (S (S m))) with (i :: S i :: seq (S (S i)) m).
+    change (seq (S i) (S m)) with (S i :: seq (S (S i)) m) in IH.
+    cbn [map] in IH |- *.
+    change (tpl_join sep (tpl_field i :: tpl_field (S i) :: ?r))
+      with (PField i :: PLit sep :: tpl_join sep (tpl_field (S i) :: r)).
+    cbn [tpl_format]. rewrite E, IH. reflexivity.
+Qed.
+
+(* the format string of a primitive: "name(" ++ "{0}, {1}, .." ++ ")" *)
+Lemma tpl_prim_format name n args : List.length args = n ->
+  tpl_format (prim_seq name n) args
+  = Some (name ++ "(" ++ String.concat ", " args ++ ")")%string.
+Proof.
+  intro H. unfold prim_seq. rewrite !tpl_format_app, tpl_join_fields by (cbn; lia).
+  cbn [skipn]. rewrite <- H, firstn_all. cbn. now rewrite !app_nil_r_s.
+Qed.
+
+(* Primitive.__init__: the format string it stores in self.seq *)
+Lemma gen_Primitive_seq_eq name a r : gen_Primitive_seq name a r = Some (prim_seq name (List.length a)).
+Proof. unfold gen_Primitive_seq. first [reflexivity | cbv zeta; mrun; reflexivity]. Qed.
+
+Lemma gen_Primitive_format_eq s args : gen_Primitive_format s args = tpl_format s args.
 Proof. unfold gen_Primitive_format. mrun. reflexivity. Qed.
 
 Lemma gen_Terminal_format_eq f v : gen_Terminal_format f v = apply_conv f v.
@@ -79,8 +126,8 @@ Proof.
   destruct n as [name a r|j r|name r|c r|name r]; cbn in H; try discriminate;
     try (destruct args as [|a0 args]; [|cbn in H; discriminate]; cbn [attr_conv_fct attr_value bind];
          rewrite gen_Terminal_format_eq; reflexivity).
-  apply Nat.eqb_eq in H. cbn [attr_seq bind]. rewrite gen_Primitive_format_eq. unfold seq_format. cbn [fst snd fmt].
-  rewrite <- H, Nat.ltb_irrefl, firstn_all. reflexivity.
+  apply Nat.eqb_eq in H. rewrite gen_Primitive_seq_eq. cbn [bind]. rewrite gen_Primitive_format_eq.
+  now apply tpl_prim_format.
 Qed.
 
 (* ---------------------------------------------------------------- PrimitiveTree.__str__ *)
@@ -235,22 +282,25 @@ Lemma gen_from_string_eq sub s ps : gen_from_string sub s ps = read sub (ps_mapp
 Proof. unfold gen_from_string. first [reflexivity | read_script sub s ps]. Qed.
 
 (* ---------------------------------------------------------------- compile: the code string handed to eval *)
-Lemma gen_compile_code_eq t ps : gen_compile_code t ps = Some (code_of ps t).
-Proof.
-  unfold gen_compile_code.
+Ltac code_script sep :=
+  exists sep; split; [unfold header_sep; auto|]; intros t ps;
   first [ reflexivity
-        | cbv zeta; rewrite gen_str_eq; mrun; unfold code_of;
+        | cbv zeta; rewrite gen_str_eq; mrun; unfold code_with;
           destruct (ps_arguments ps) as [|a l];
           [ reflexivity | cbn [List.length Nat.ltb Nat.leb Nat.eqb negb]; rewrite ?app_assoc_s, ?map_id; reflexivity ] ].
-Qed.
+
+(* the parameters of the lambda header are joined by "," or ", " -- which one is a property of the source text *)
+Lemma gen_compile_code_eq :
+  exists sep, header_sep sep /\ forall t ps, gen_compile_code t ps = Some (code_with sep ps t).
+Proof. unfold gen_compile_code. first [ code_script "," | code_script ", " ]. Qed.
 
 (* what the model's compile does with that string: the tree's printed form is parsed as the body, the
    parameters are the set's arguments *)
-Lemma compile_of_code {V} (cval : cst -> option V) ps ps' ctx t t' :
-  code_of ps t = code_of ps' t' -> ps_arguments ps = ps_arguments ps' ->
+Lemma compile_of_code {V} (cval : cst -> option V) sep ps ps' ctx t t' :
+  code_with sep ps t = code_with sep ps' t' -> ps_arguments ps = ps_arguments ps' ->
   compile cval ps ctx t = compile cval ps' ctx t'.
 Proof.
-  unfold code_of, compile. intros H E. rewrite <- E in *. destruct (ps_arguments ps) as [|a l].
+  unfold code_with, compile. intros H E. rewrite <- E in *. destruct (ps_arguments ps) as [|a l].
   - now rewrite H.
   - apply str_app_inv_head in H. apply str_app_inv_head in H. apply str_app_inv_head in H. now rewrite H.
 Qed.
@@ -319,7 +369,11 @@ Ltac rename_script ps kargs :=
       unfold setitem_; apply Nat.ltb_lt in Hi; rewrite Hi; mrun;
       unfold set_mapping, set_arguments; cbn [ps_arguments ps_argvalue ps_mapping];
       destruct (dget (nth i (ps_arguments p) "") (ps_mapping p)) as [o|] eqn:Eo; [|reflexivity]; mrun;
-      rewrite dget_dset_same; mrun;
+      first [ rewrite dget_dset_same
+            | (* the object reached through the old name is the same one *)
+              destruct (String.eqb_spec (nth i (ps_arguments p) "") new) as [Hsame|Hne];
+              [ rewrite Hsame in *; rewrite dget_dset_same
+              | rewrite (dget_dset_other _ _ o _ Hne), Eo ] ]; mrun;
       destruct o; try reflexivity; cbn [set_attr_value bind ps_arguments ps_argvalue ps_mapping];
       unfold ddel_, set_mapping, set_arguments; cbn [ps_arguments ps_argvalue ps_mapping];
       rewrite dmem_dset_keep by (unfold dmem; now rewrite Eo); reflexivity
@@ -450,17 +504,18 @@ Qed.
 
 (* ---------------------------------------------------------------- all of them *)
 Lemma source_is_model :
-  (forall s args, gen_Primitive_format s args = seq_format s args) /\
+  (forall name a r, gen_Primitive_seq name a r = Some (prim_seq name (List.length a))) /\
+  (forall s args, gen_Primitive_format s args = tpl_format s args) /\
   (forall f v, gen_Terminal_format f v = apply_conv f v) /\
   (forall ps n args, arity_matches (List.length args) n = true -> gen_format ps n args = Some (fmt ps n args)) /\
   (forall ps t, gen_str ps t = Some (str_tree ps t)) /\
   (forall sub s ps, gen_from_string sub s ps = read sub (ps_mapping ps) s) /\
-  (forall t ps, gen_compile_code t ps = Some (code_of ps t)) /\
+  (exists sep, header_sep sep /\ forall t ps, gen_compile_code t ps = Some (code_with sep ps t)) /\
   (forall ps kargs, gen_renameArguments ps kargs = rename kargs ps) /\
   (forall V (cval : cst -> option V) defs,
      flat (gen_compileADF cval (map d_tree defs) (map fp_of defs)) = compile_adf cval defs).
 Proof.
-  split; [exact gen_Primitive_format_eq|]. split; [exact gen_Terminal_format_eq|].
+  split; [exact gen_Primitive_seq_eq|]. split; [exact gen_Primitive_format_eq|]. split; [exact gen_Terminal_format_eq|].
   split; [exact gen_format_eq|]. split; [exact gen_str_eq|]. split; [exact gen_from_string_eq|].
   split; [exact gen_compile_code_eq|]. split; [exact gen_renameArguments_eq|].
   intros V cval defs. apply gen_compileADF_defs.
@@ -484,21 +539,21 @@ Lemma gen_read_print sub ps t tr :
     gen_compile_code t' ps = gen_compile_code t ps.
 Proof.
   intros R T P N Rs Ty. destruct (read_print sub ps t tr R T P N Rs Ty) as (t' & H1 & H2 & H3 & H4 & H5 & H6).
-  exists (str_tree ps t), t'. rewrite !gen_str_eq, gen_from_string_eq, !gen_compile_code_eq.
+  exists (str_tree ps t), t'. rewrite !gen_str_eq, gen_from_string_eq.
   repeat split; try assumption; try congruence.
-  unfold code_of. now rewrite H2.
+  destruct gen_compile_code_eq as (sep & _ & E). rewrite !E. unfold code_with. now rewrite H2.
 Qed.
 
 Lemma gen_code_is_expr ps t tr : parse t = Some tr -> all_nodes (node_ok ps) tr ->
-  exists s, gen_str ps t = Some s /\ parse_expr s = Some (expr_of ps tr) /\
+  exists s sep, gen_str ps t = Some s /\ parse_expr s = Some (expr_of ps tr) /\ header_sep sep /\
     gen_compile_code t ps =
     Some (match ps_arguments ps with
           | [] => s
-          | params => String.append "lambda " (String.append (String.concat "," params) (String.append ": " s))
+          | params => String.append "lambda " (String.append (String.concat sep params) (String.append ": " s))
           end).
 Proof.
-  intros P N. exists (str_tree ps t). rewrite gen_str_eq, gen_compile_code_eq.
-  split; [reflexivity|]. split; [now apply code_is_expr|reflexivity].
+  intros P N. destruct gen_compile_code_eq as (sep & Hs & E). exists (str_tree ps t), sep. rewrite gen_str_eq, E.
+  split; [reflexivity|]. split; [now apply code_is_expr|]. split; [exact Hs|reflexivity].
 Qed.
 
 Lemma gen_compile_adf_sem {V} (cval : cst -> option V) defs actuals :
@@ -527,4 +582,11 @@ Proof. intros P N. rewrite gen_str_eq. intros [= <-]. now apply (tokenize_str ps
 Lemma gen_compile_of_code {V} (cval : cst -> option V) ps ps' ctx t t' :
   gen_compile_code t ps = gen_compile_code t' ps' -> ps_arguments ps = ps_arguments ps' ->
   compile cval ps ctx t = compile cval ps' ctx t'.
-Proof. rewrite !gen_compile_code_eq. intros [= H]. now apply compile_of_code. Qed.
+Proof. destruct gen_compile_code_eq as (sep & _ & E). rewrite !E. intros [= H]. now apply (compile_of_code cval sep). Qed.
+
+Lemma gen_prim_format name a r args s : List.length args = List.length a ->
+  gen_Primitive_seq name a r = Some s ->
+  gen_Primitive_format s args = Some (name ++ "(" ++ String.concat ", " args ++ ")")%string.
+Proof.
+  intros H. rewrite gen_Primitive_seq_eq. intros [= <-]. rewrite gen_Primitive_format_eq. now apply tpl_prim_format.
+Qed.
